@@ -320,8 +320,15 @@ func (t *Tree) GoRepr(opts []ucfg.Option, used map[string]int) (interface{}, err
 		used["[]interface{}"]++
 		return elems, nil
 	}
+	if t.K == "nil" && t.R > 0 {
+		// a nil pointer of some type: a nil value like the untyped nil
+		used["typed nil pointer"]++
+		return typedNils[(t.R-1)%len(typedNils)], nil
+	}
 	return t.Prim(), nil
 }
+
+var typedNils = []interface{}{(*int)(nil), (*string)(nil), (*struct{ A int })(nil), (*map[string]interface{})(nil), (*[]interface{})(nil), (**bool)(nil), (*ucfg.Config)(nil)}
 
 type namedMap map[string]interface{}
 type namedSlice []interface{}
@@ -421,7 +428,11 @@ func GenTree(t *rapid.T, cfg *TreeCfg, depth int) *Tree {
 		if cfg.NoNil {
 			return genPrim(t, cfg)
 		}
-		return Nil()
+		n := Nil()
+		if cfg.Reprs {
+			n.R = rapid.IntRange(0, len(typedNils)).Draw(t, "nilrepr") // 0: untyped nil, else a nil pointer of some type
+		}
+		return n
 	case k <= 4:
 		return genPrim(t, cfg)
 	case k <= 7:
